@@ -27,7 +27,8 @@ RULE = ("records = (write/read history, storage configuration); histories are dr
         "seek) under contiguous, chunked, chunked+compressed, compressed and external layouts for SD and GR; external "
         "elements at offsets 0..4096 sharing their file with foreign guard bytes in front, written completely and then "
         "partially rewritten near the end, with the guard bytes and the placement of the data in the external file "
-        "checked at the end. Thorough tier: every chunk shape of every extent up to "
+        "checked at the end; in about half of all records 1-3 other attributes are set before and 0-3 after the fill "
+        "value ahead of the layout-selection call (the object's other metadata must not matter). Thorough tier: every chunk shape of every extent up to "
         "4x4x3 with cache sizes 1..chunks+1. Each record's output is compared with the array specification. "
         "Function level: static chunk arithmetic of hchunks.c and mcache_get/put/sync vs the Coq models on generated "
         "and exhaustive small cases. A record is non-trivial when it transfers data under a non-baseline layout; "
@@ -101,11 +102,12 @@ class Rec:
     def __init__(self, api, dims, nt, hasfill, fill, cfg, ops, tag=""):
         self.api, self.dims, self.nt, self.hasfill, self.fill = api, list(dims), nt, hasfill, fill
         self.cfg, self.ops, self.tag = cfg, ops, tag
+        self.pre = self.post = 0     # other attributes set before / after the fill value, before the layout call
 
     def text(self, rid):
         c = self.cfg
         out = ["hist %s %d %d %s %d %d %d" % (rid, self.api, len(self.dims), " ".join(map(str, self.dims)), self.nt,
-                                             self.hasfill, self.fill),
+                                             (self.hasfill & 1) | (self.pre << 1) | (self.post << 3), self.fill),
                "cfg %d %d %d %d %d %d %d %s" % (c["kind"], c.get("cache", 0), c.get("coder", 0), c.get("p1", 0),
                                                c.get("p2", 0), c.get("p3", 0), c.get("p4", 0),
                                                " ".join(map(str, c.get("cl", [0] * len(self.dims)))))]
@@ -130,7 +132,7 @@ class Rec:
         return "\n".join(out)
 
     def key(self):
-        return (self.api, tuple(self.dims), self.nt, self.fill, tuple(sorted((k, str(v)) for k, v in self.cfg.items())),
+        return (self.api, tuple(self.dims), self.nt, self.fill, self.pre, self.post, tuple(sorted((k, str(v)) for k, v in self.cfg.items())),
                 tuple(str(o)[:80] for o in self.ops))
 
 
@@ -145,7 +147,8 @@ def parse_records(text):
             api, rank = int(t[2]), int(t[3])
             dims = list(map(int, t[4:4 + rank]))
             nt, hf, fill = map(int, t[4 + rank:7 + rank])
-            cur = Rec(api, dims, nt, hf, fill, {}, [])
+            cur = Rec(api, dims, nt, hf & 1, fill, {}, [])
+            cur.pre, cur.post = (hf >> 1) & 3, (hf >> 3) & 3
         elif t[0] == "cfg":
             n = list(map(int, t[1:]))
             cur.cfg = {"kind": n[0], "cache": n[1], "coder": n[2], "p1": n[3], "p2": n[4], "p3": n[5], "p4": n[6],
@@ -842,6 +845,7 @@ def shrink(ctx, rec, budget=40):
     i = 0
     while i < len(cur.ops) and budget > 0:
         cand = Rec(cur.api, cur.dims, cur.nt, cur.hasfill, cur.fill, cur.cfg, cur.ops[:i] + cur.ops[i + 1:], cur.tag)
+        cand.pre, cand.post = cur.pre, cur.post
         if rec.ops and rec.ops[0][0] == "w" and (not cand.ops or cand.ops[0] != rec.ops[0]):
             i += 1       # stay inside the domain: a history that starts by giving the dataset its data keeps doing so
             continue     # (GR images and external datasets are only compared after they got data)
@@ -1124,6 +1128,13 @@ def run(ctx):
     recs += interlace_records(g, ctx.tier)
     recs += hlevel_records(g, ctx.tier)
     recs += exhaustive_records(g, (3, 3, 2) if quick else (4, 4, 3))
+    # the dataset's other metadata must not matter: in about half of all records other attributes (text, int32[2],
+    # float64) are set before and/or after the fill value, ahead of the layout-selection call
+    for rec in recs:
+        if rec.tag != "corpus" and ctx.rng.random() < 0.5:
+            rec.pre, rec.post = ctx.rng.choice([(1, 0), (2, 0), (3, 1), (0, 2), (1, 1), (2, 3)])
+    stats["_attrs"] = {"records_with_other_attributes": sum(1 for x in recs if x.pre or x.post),
+                       "fill_not_first_attribute": sum(1 for x in recs if x.pre and x.hasfill)}
     check_records(ctx, recs, "main", stats)
     ctx.corr("layouts~array-spec", **{k: v for k, v in stats.items()})
     run_function_level(ctx)
